@@ -14,7 +14,7 @@
 (* bytes to the decoder (every path = one chunking).  The whole-stream decoder is the ghost      *)
 (* Whole(pos).                                                                                   *)
 EXTENDS Integers, Sequences, FiniteSets, TLC, Bitwise
-CONSTANTS Configs,      \* set of link configurations [proto, frames, fill, noise, keys, sws, P, G]
+CONSTANTS Configs,      \* set of link configurations [proto, frames, fill, noise, keys, sws, infl, P, G]
           MaxFrames, MaxFaults (* drops + replacements + insertions *), MaxInsert, MaxFill, MaxChunk,
           Deviations    \* named code-as-is behaviours that break the statement (see *Apply / *Run)
 VARIABLES cfg, wire, pending, nfr, nins, nflt, nfill,
@@ -58,7 +58,8 @@ InitSw(c) == IF c.proto = "opp"
              THEN [k \in SeqSet(c.keys) |-> IF k % 256 = 8 THEN <<255, 255, 255, 255>>
                                                         ELSE <<255, 255, 255, 255, 255, 255, 255, 255>>]
              ELSE [k \in SeqSet(c.keys) |-> 0]
-InitDec(c) == [buf |-> <<>>, base |-> 0, lost |-> FALSE, dead |-> FALSE, infl |-> 0, out |-> <<>>, sw |-> InitSw(c)]
+\* infl: PKONE messages_in_flight (commands sent and not yet answered; every terminator decrements it, never below 0)
+InitDec(c) == [buf |-> <<>>, base |-> 0, lost |-> FALSE, dead |-> FALSE, infl |-> c.infl, out |-> <<>>, sw |-> InitSw(c)]
 Drop(d, n) == [d EXCEPT !.buf = Rest(@, n), !.base = @ + n]
 Emit(d, m) == [d EXCEPT !.out = Append(@, [at |-> d.base, m |-> m])]
 SetSw(d, k, v) == IF k \in DOMAIN d.sw THEN [d EXCEPT !.sw[k] = v] ELSE d
